@@ -74,6 +74,38 @@ class _LogCapture(logging.Handler):
             self.records.append((record.levelname, str(record.msg)))
 
 
+def _guard_big_integers():
+    """Generated scripts can square an integer in a loop or raise a large one
+    to a large power; the reference calls such values undefined (> 1e12) and
+    the case is discarded, but the VM runs first and would spend minutes and
+    gigabytes on the multiplication.  Past two million bits the VM's `*` and
+    `^` raise OverflowError instead (an ordinary script fault).  Nothing a
+    property speaks about is that large."""
+    import operator
+    from bardolph.vm.vm_math import VmMath
+    from bardolph.vm.vm_codes import Operator
+    if getattr(VmMath, '_verif_guarded', False):
+        return
+
+    def bits(value):
+        return value.bit_length() if isinstance(value, int) and not \
+            isinstance(value, bool) else 0
+
+    def mul(a, b):
+        if bits(a) + bits(b) > 2000000:
+            raise OverflowError('verif: product too large to be worth it')
+        return operator.mul(a, b)
+
+    def power(a, b):
+        if bits(a) and isinstance(b, int) and b > 0 and \
+                bits(a) * b > 2000000:
+            raise OverflowError('verif: power too large to be worth it')
+        return operator.pow(a, b)
+    VmMath._fn_table[Operator.MUL] = mul
+    VmMath._fn_table[Operator.POW] = power
+    VmMath._verif_guarded = True
+
+
 class World:
     """One configured bardolph container + simulated LAN.  The injection
     container is process-wide, so only the most recently built World is live;
@@ -83,6 +115,7 @@ class World:
     def __init__(self, specs=(), output='record', fault_plan=None,
                  pack_messages=False, extra_settings=None, discover=True,
                  extra_fns=None, clock='record'):
+        _guard_big_integers()
         self.trace = []
         self.lan = simlan.install(
             simlan.SimLan(specs, fault_plan, pack_messages))
